@@ -1125,25 +1125,36 @@ func checkCloseFlush(r *Run, p *Prog) {
 		for _, atom := range conjuncts(cond) {
 			var fields []*types.Var
 			other := false
-			ast.Inspect(atom, func(x ast.Node) bool {
-				switch v := x.(type) {
-				case *ast.SelectorExpr:
-					if f, ok := fn.Pkg.TypesInfo.Uses[v.Sel].(*types.Var); ok && f.IsField() {
-						fields = append(fields, f)
-					}
-				case *ast.CallExpr:
-					// a method call on a field reads that field; anything else is unknown
-					if sel, ok := ast.Unparen(v.Fun).(*ast.SelectorExpr); ok {
-						if inner, ok := ast.Unparen(sel.X).(*ast.SelectorExpr); ok {
-							if f, ok := fn.Pkg.TypesInfo.Uses[inner.Sel].(*types.Var); ok && f.IsField() {
-								return true
+			var collect func(in *FuncNode, e ast.Node, depth int)
+			collect = func(in *FuncNode, e ast.Node, depth int) {
+				ast.Inspect(e, func(x ast.Node) bool {
+					switch v := x.(type) {
+					case *ast.SelectorExpr:
+						if f, ok := in.Pkg.TypesInfo.Uses[v.Sel].(*types.Var); ok && f.IsField() {
+							fields = append(fields, f)
+						}
+					case *ast.CallExpr:
+						// a method call on a field reads that field
+						if sel, ok := ast.Unparen(v.Fun).(*ast.SelectorExpr); ok {
+							if inner, ok := ast.Unparen(sel.X).(*ast.SelectorExpr); ok {
+								if f, ok := in.Pkg.TypesInfo.Uses[inner.Sel].(*types.Var); ok && f.IsField() {
+									return true
+								}
 							}
 						}
+						// a package-local predicate whose body is one return: read through it
+						if h := p.ByObj[CalleeFunc(in, v)]; h != nil && h.Body != nil && h.Pkg == in.Pkg && depth < 2 && len(h.Body.List) == 1 {
+							if ret, ok := h.Body.List[0].(*ast.ReturnStmt); ok && len(ret.Results) == 1 {
+								collect(h, ret.Results[0], depth+1)
+								return false
+							}
+						}
+						other = true
 					}
-					other = true
-				}
-				return true
-			})
+					return true
+				})
+			}
+			collect(fn, atom, 0)
 			good, detail := true, "configuration only"
 			if other || len(fields) == 0 {
 				r.Undecide("C02.R6: the flush guard %s in Writer.Close is not a test of fields (unknown idiom)", types.ExprString(atom))
